@@ -782,6 +782,11 @@ func serverConfigFilePath() (string, ConfigFileType, error) {
 	return "", INVALID_CONFIG_FILE_TYPE, fmt.Errorf("server config file path is empty")
 }
 
+// MergeServerConfig merges a server config patch into a full server config.
+func MergeServerConfig(dst, patch *pb.ServerConfig) error {
+	return mergeServerConfig(dst, patch)
+}
+
 // mergeServerConfig merges the source client config into destination.
 // If a user is specified in source, it is added to destination, or replacing existing user in destination.
 func mergeServerConfig(dst, src *pb.ServerConfig) error {
